@@ -102,7 +102,7 @@ Section Rank.
         specialize (Ha Hin).
         destruct (args_loop (resolve_d f) rs h io0 ps1 []) as [rs1 [args|e]]; cbn [snd] in *; [|destruct e; try discriminate; congruence].
         destruct (cancels (ds_reg d) _); destruct (effective_outcome (ds_reg d) _); try discriminate;
-          destruct rets as [|t0 [|t1 ts]]; try discriminate; destruct (fan_out _ _ _ _ _); discriminate.
+          destruct rets as [|t0 [|t1 ts]]; discriminate.
       - assert (Hps : reg_params (ds_reg d) = (io0, ps1)) by (unfold reg_params; rewrite Hf; reflexivity).
         rewrite Hps.
         pose proof (args_no_fuel d h io0 ps1 rs [] Hc Hd Hr) as Ha.
@@ -110,8 +110,7 @@ Section Rank.
         { intros dp H. unfold reg_deps. rewrite Hps. cbn [snd]. apply deps_of_In. exact H. }
         specialize (Ha Hin).
         destruct (args_loop (resolve_d f) rs h io0 ps1 []) as [rs1 [args|e]]; cbn [snd] in *; [|destruct e; try discriminate; congruence].
-        destruct (cancels (ds_reg d) _); destruct (effective_outcome (ds_reg d) _); try discriminate;
-          destruct (fan_out _ _ _ _ _); discriminate.
+        destruct (cancels (ds_reg d) _); destruct (effective_outcome (ds_reg d) _); discriminate.
     Qed.
   End Step.
 
